@@ -365,7 +365,7 @@ mutual
                 let c ← getChild acc.1.children i
                 let (c', t2) ← designation f elem tok c
                 pure (acc.1.setChild i c', t2)) (init, tok)
-            arrayInit2 f elem tok2 init (b + 1)
+            arrayInit2 f elem tok2 init (e + 1)
       | .dot name :: r =>
         match ty with
         | .struct ms _ _ => do
